@@ -15,6 +15,10 @@ package safelog
 //   - the lines are consecutive segments of pending ++ b, in order, nothing skipped,
 //   - only the output of Scrub reaches the sink,
 //   - the bytes after the last newline stay pending, in storage the caller cannot reach.
+// The package keeps no mutable package-level state: activations (two decoders, two requests) cannot influence each
+// other through it.
+//@ stateless package [C07]
+//
 //@ default model int
 // Scrub applies every pattern twice: a match consumes the delimiter that follows the address, which hides an address
 // that begins right after it from the same pass (what the passes match is outside the verified code; the bounded
